@@ -158,6 +158,11 @@ def buildArrays (ext : Ext) (root : B) : R (List Arr × B) :=
     pure (cols.toList.map (·.2), takeRest root)
   | _ => panic "root builder is not a struct"
 
+/-- the builder state after all rows have been pushed (before `build_arrays`) -/
+def runRows (ext : Ext) (fields : List Field) (rows : List SVal) : R B := do
+  let root ← newRoot fields
+  rows.foldlM (push ext) root
+
 /-- `to_marrow(fields, items)` where `items` serializes as a sequence of records -/
 def toMarrow (ext : Ext) (fields : List Field) (rows : List SVal) : R (List Arr) := do
   let root ← newRoot fields
